@@ -57,6 +57,7 @@ fn main() {
         "c11" => geom::main_c11(&args),
         "c12" => c12::main(&args),
         "c01" => c01::main(&args),
+        "c03" => c01::main_c03(&args),
         "c13" => c13::main(&args),
         "c16" => c16::main(&args),
         "c09" => c09::main(&args),
